@@ -362,7 +362,9 @@ class IndexedSet(MutableSet):
         "difference_update(*others) -> discard self.intersection(*others)"
         if self in others:
             self.clear()
-        for val in self.intersection(*others):
+        # drop whatever is in *any* of the others (intersection(*others)
+        # alone is only what is in all of them)
+        for val in self.difference(self.difference(*others)):
             self.discard(val)
 
     def symmetric_difference_update(self, other):  # note singular 'other'
